@@ -31,6 +31,12 @@ def lean_chars(s: str) -> str:
     return "[" + ", ".join("'" + (c if c not in "'\\" else "\\" + c) + "'" for c in s) + "]"
 
 
+def lean_string(s: str) -> str:
+    import json
+
+    return json.dumps(s, ensure_ascii=False)
+
+
 def lean_nats(s: str) -> str:
     return "([" + ", ".join(str(ord(c)) for c in s) + "] : List Nat)"
 
@@ -47,6 +53,19 @@ class Tr:
         self.helper_types = spec.setdefault("_helper_types", {})
 
     # ---- expressions -------------------------------------------------------------------------
+    def module_const(self, name: str):
+        """a module-level `NAME = <str|int literal>` (assigned once, never rebound in the function): its literal"""
+        if name in self.types or name in self.rename or not self.scope or name in self.spec.get("_locals", ()):
+            return None
+        vals = []
+        for st in self.scope[0].body:
+            tg = st.targets if isinstance(st, ast.Assign) else [st.target] if isinstance(st, ast.AnnAssign) and st.value is not None else []
+            if any(isinstance(t, ast.Name) and t.id == name for t in tg):
+                vals.append(st.value)
+        if len(vals) == 1 and isinstance(vals[0], ast.Constant) and isinstance(vals[0].value, (str, int)) and not isinstance(vals[0].value, bool):
+            return vals[0]
+        return None
+
     def dotted(self, n) -> str | None:
         if isinstance(n, ast.Name):
             return n.id
@@ -61,6 +80,8 @@ class Tr:
             return self.types[d]
         if ast.unparse(n) in self.types:
             return self.types[ast.unparse(n)]
+        if isinstance(n, ast.Name) and self.module_const(n.id) is not None:
+            return self.typ(self.module_const(n.id))
         if isinstance(n, ast.Subscript) and self.typ(n.value) == "dict":
             return "str"
         if isinstance(n, ast.Call) and isinstance(n.func, ast.Attribute) and n.func.attr == "strip":
@@ -85,7 +106,10 @@ class Tr:
 
     def e(self, n) -> str:
         if self.typ(n) == "optstr" and self.dotted(n) is not None:
-            return f"(({self.raw(n)}).getD [])"       # Optional[str] used as a string: only behind a truthiness guard
+            empty = '""' if self.spec.get("str") == "string" else "[]"
+            return f"(({self.raw(n)}).getD {empty})"       # Optional[str] used as a string: only behind a truthiness guard
+        if self.typ(n) == "optlist" and self.dotted(n) is not None:
+            return f"(({self.raw(n)}).getD [])"            # Optional[list] used as a list: only behind a truthiness guard
         return self.raw(n)
 
     def raw(self, n) -> str:
@@ -101,7 +125,8 @@ class Tr:
             if d.startswith("self.") and self.state:
                 return f"{self.state}.{d[5:].replace('.', '_')}"
             if isinstance(n, ast.Name):
-                return n.id
+                c = self.module_const(n.id)
+                return n.id if c is None else self.e(c)
             if isinstance(n, ast.Attribute) and self.types.get(self.dotted(n.value) or "") == "obj":
                 return f"{self.raw(n.value)}.{self.spec.get('attrs', {}).get(n.attr, n.attr)}"      # a field of a local structure value
             raise Unsupported(f"name {d}")
@@ -114,7 +139,7 @@ class Tr:
             if isinstance(v, (int,)):
                 return f"({v} : Rat)" if self.spec.get("numbers") == "Rat" else str(v)
             if isinstance(v, str):
-                return lean_nats(v) if self.spec.get("str") == "nat" else lean_chars(v)
+                return lean_nats(v) if self.spec.get("str") == "nat" else lean_string(v) if self.spec.get("str") == "string" else lean_chars(v)
             raise Unsupported(f"constant {v!r}")
         if isinstance(n, ast.JoinedStr):
             parts = []
@@ -219,13 +244,16 @@ class Tr:
                 return "(" + self.spec["funcs"][self.dotted(f)] + " " + " ".join(self.e(a) for a in args) + ")"
             if isinstance(f, ast.Name) and f.id in self.spec.get("ctors", {}) and not n.args:
                 self.types[src] = "obj"
-                lean, fields, fixed = self.spec["ctors"][f.id]
-                kws = {k.arg: k.value for k in n.keywords}
+                lean, fields, fixed = self.spec["ctors"][f.id][:3]
+                ignore = self.spec["ctors"][f.id][3] if len(self.spec["ctors"][f.id]) > 3 else ()
+                kws = {k.arg: k.value for k in n.keywords if k.arg not in ignore}
                 for k, want in fixed.items():
                     if k not in kws or ast.unparse(kws[k]) != want:
                         raise Unsupported(f"constructor field {k} is not {want}")
                 if set(kws) != set(fields) | set(fixed):
                     raise Unsupported(f"constructor fields {sorted(kws)}")
+                if lean is None:          # the constructed value is represented by ONE of its fields
+                    return self.e(kws[next(iter(fields))])
                 return "({ " + ", ".join(f"{fields[k]} := {self.e(kws[k])}" for k in fields) + f" }} : {lean})"
             raise Unsupported(f"call {src}")
         if isinstance(n, ast.Subscript) and isinstance(n.slice, ast.Slice) and n.slice.upper is None and n.slice.step is None and n.slice.lower is not None:
@@ -250,6 +278,8 @@ class Tr:
     def cond(self, n) -> str:
         """an expression in boolean position (Python truthiness of strings/lists)"""
         t = self.typ(n)
+        if t == "optlist" and not isinstance(n, (ast.Compare, ast.BoolOp, ast.UnaryOp, ast.Call)):
+            return f"(match {self.raw(n)} with | some l => !l.isEmpty | none => false)"
         if t == "optstr" and not isinstance(n, (ast.Compare, ast.BoolOp, ast.UnaryOp, ast.Call)):
             return f"(match {self.raw(n)} with | some s => !s.isEmpty | none => false)"
         if t in ("str", "list") and not isinstance(n, (ast.Compare, ast.BoolOp, ast.UnaryOp, ast.Call)):
@@ -275,6 +305,8 @@ class Tr:
             v = "(" + ", ".join(parts) + ")"
             return f".ok {v}" if self.spec.get("mode") == "except" else v
         v = self.e(n) if n is not None else "()"
+        if self.spec.get("mode") == "except" and self.spec.get("thread"):
+            return f"({self.spec['thread']}, .ok {v})"
         if self.spec.get("mode") == "except":
             return f".ok {v}"
         return f"({self.state}, {v})" if self.state else v
@@ -305,7 +337,42 @@ class Tr:
         if isinstance(s, ast.Assign) and ast.unparse(s.value) in self.spec.get("skip_assign", ()):
             return self.block(rest, ind)
         if isinstance(s, ast.Raise) and self.spec.get("mode") == "except" and s.exc is not None:
+            if self.spec.get("thread"):
+                return f"{ind}({self.spec['thread']}, .error {self.error_of(s.exc)})"
             return f"{ind}.error {self.error_of(s.exc)}"
+        if isinstance(s, (ast.Import, ast.ImportFrom)):
+            return self.block(rest, ind)
+        if any(ast.unparse(s).startswith(x) for x in self.spec.get("skip_src", ())):
+            return self.block(rest, ind)
+        # `x = await f(...)` / `return await f(...)`: the await itself is not modelled (the callee is a parameter or the function itself)
+        if isinstance(s, ast.Assign) and isinstance(s.value, ast.Await):
+            s = ast.Assign(targets=s.targets, value=s.value.value, lineno=0)
+        if isinstance(s, ast.Return) and isinstance(s.value, ast.Await):
+            s = ast.Return(value=s.value.value)
+        if isinstance(s, ast.Assign) and len(s.targets) == 1 and isinstance(s.targets[0], ast.Name) and isinstance(s.value, ast.Call) \
+                and self.dotted(s.value.func) in self.spec.get("opt_raising_funcs", {}):
+            fn, err = self.spec["opt_raising_funcs"][self.dotted(s.value.func)]
+            x = s.targets[0].id
+            self.types[x] = "obj"
+            args = " ".join(self.e(a) for a in s.value.args)
+            w = self.spec.get("thread")
+            if w:   # the callee acts on the threaded world state (here: the log of connections made)
+                return f"{ind}match {fn} {w} {args} with\n{ind}| ({w}, none) => ({w}, .error {err})\n{ind}| ({w}, some {x}) =>\n" + self.block(rest, ind + "  ")
+            return f"{ind}match {fn} {args} with\n{ind}| none => .error {err}\n{ind}| some {x} =>\n" + self.block(rest, ind + "  ")
+        if (isinstance(s, ast.Expr) and isinstance(s.value, ast.Call) and isinstance(s.value.func, ast.Attribute) and s.value.func.attr == "append"
+                and isinstance(s.value.func.value, ast.Name) and self.types.get(s.value.func.value.id) == "list" and len(s.value.args) == 1):
+            x = s.value.func.value.id
+            return f"{ind}let {x} := {x} ++ [{self.e(s.value.args[0])}]\n" + self.block(rest, ind)
+        if isinstance(s, ast.Return) and isinstance(s.value, ast.Call) and self.spec.get("recursive") and self.dotted(s.value.func) == self.spec["recursive"][0]:
+            # a tail call of the function itself: the Lean definition recurses on `fuel`
+            params = self.spec["recursive"][1]
+            given = {p: a for p, a in zip(params, s.value.args)}
+            given.update({k.arg: k.value for k in s.value.keywords})
+            if set(given) != set(params):
+                raise Unsupported("recursive call arguments")
+            return ind + self.spec["recursive"][2] + (" " + self.spec["thread"] if self.spec.get("thread") else "") + " " + " ".join(self.e(given[p_]) for p_ in params)
+        if self.spec.get("stop_src") and self.spec["stop_src"][0] in ast.unparse(s):
+            return ind + self.ret(ast.parse(self.spec["stop_src"][1], mode="eval").body)
         stop = self.spec.get("stop_at")
         if stop and isinstance(s, stop[0]):
             return ind + self.ret(ast.parse(stop[1], mode="eval").body)
@@ -341,8 +408,10 @@ class Tr:
                 if not self.state:
                     raise Unsupported("mutation of self")
                 return f"{ind}let {self.state} := {{ {self.state} with {d[5:]} := {self.e(s.value)} }}\n" + self.block(rest, ind)
-            val = self.e(s.value)
-            self.types.setdefault(d, self.typ(s.value))
+            vt = self.typ(s.value)
+            # an Optional value keeps its Option type when it is only bound to a name
+            val = self.raw(s.value) if vt.startswith("opt") and self.dotted(s.value) is not None else self.e(s.value)
+            self.types.setdefault(d, vt)
             return f"{ind}let {d} := {val}\n" + self.block(rest, ind)
         if isinstance(s, ast.AnnAssign) and isinstance(s.target, ast.Name) and s.value is not None:
             if isinstance(s.value, ast.Dict) and not s.value.keys:
@@ -736,6 +805,27 @@ SPECS = [
                  "Invalid size parameter": ".badSize", "Size must be non-negative": ".negSize"},
          types={"line": "str", "url_part": "str", "params_str": "str", "params": "dict", "_parse_titan_params(params_str)": "dict", "size": "num", "gemini_url": "str",
                 "parsed": "obj", "parsed.hostname": "str", "parsed.path": "str", "parsed.query": "str", "parsed.normalized": "str", "parsed.port": "num"}),
+    dict(name="uploadGate", file="server/handler.py", cls="FileUploadHandler", func="handle_upload", str="string", ret_opt=True,
+         header=("def uploadGate (auth_tokens : List String) (max_size : Nat) (allowed_types : Option (List String)) (token : Option String)\n"
+                 "    (size : Nat) (mime_type : String) : Option Nat :="),
+         opaque={"isinstance(request, TitanRequest)": "true"},
+         rename={"self.auth_tokens": "auth_tokens", "self.max_size": "max_size", "self.allowed_types": "allowed_types", "request.token": "token",
+                 "request.size": "size", "request.mime_type": "mime_type", "StatusCode.BAD_REQUEST.value": "59", "StatusCode.CLIENT_CERT_REQUIRED.value": "60",
+                 "StatusCode.PERMANENT_FAILURE.value": "50"},
+         ctors={"GeminiResponse": (None, {"status": "status"}, {}, ("meta",))},
+         stop_src=("request.is_delete()", "None"),
+         types={"self.auth_tokens": "list", "self.allowed_types": "optlist", "request.token": "optstr", "request.mime_type": "str", "request.size": "num", "self.max_size": "num"}),
+    dict(name="followRedirects", file="client/session.py", cls="GeminiClient", func="_get_with_redirects", mode="except", fuel="(w, .error .fuel)", thread="w",
+         header=("def followRedirects {W : Type} (fetch : W → List Char → W × Option Cl.Resp) (fuel : Nat) (w : W) (url : List Char) (max_redirects : Nat)\n"
+                 "    (redirect_chain : List (List Char)) : W × Except Cl.RErr Cl.Resp :="),
+         skip_src=("if redirect_chain is None",),
+         opt_raising_funcs={"self._get_single": ("fetch", ".fetchErr")},
+         funcs={"is_redirect": "Cl.isRedirectStatus"},
+         attrs={"redirect_url": "redirectUrl"},
+         recursive=("self._get_with_redirects", ["url", "max_redirects", "redirect_chain"], "followRedirects fetch fuel"),
+         errors={"Redirect loop detected": ".loop", "Maximum redirects": ".tooMany", "Redirect response missing URL": ".missing"},
+         types={"url": "str", "redirect_chain": "list", "max_redirects": "num", "response": "obj", "response.status": "num", "response.redirect_url": "optstr",
+                "redirect_url": "optstr", "response.meta": "str"}),
     dict(name="parseUrl", file="utils/url.py", cls=None, func="parse_url", mode="except", numfmt="Url.natToStr",
          header=("def parseUrl (url scheme : Url.Str) (hostname username password : Option Url.Str) (fragment : Url.Str) (splitR : Except Url.Err Unit)\n"
                  "    (portR : Except Url.Err (Option Nat)) (path netloc query : Url.Str) : Except Url.Err Url.Parsed :="),
@@ -782,6 +872,8 @@ PRELUDE = {
     "canonicalPath": ([], []),
     "parseUrl": (["NauyacaVerif.Url.Basic", "NauyacaVerif.Gen.Params"], []),
     "findRule": (["NauyacaVerif.Mw.Cert"], []),
+    "uploadGate": ([], []),
+    "followRedirects": (["NauyacaVerif.Cl.Redirect"], []),
     "titanParams": (["NauyacaVerif.Srv.Conn", "NauyacaVerif.Misc.PyDict"], DICT_PRELUDE),
     "titanFromLine": (["NauyacaVerif.Srv.Conn", "NauyacaVerif.Misc.PyDict"], DICT_PRELUDE + [
         "inductive TErr where", "  | notTitan | noParams | noSize | badSize | negSize | url (e : Url.Err)", "deriving Repr, DecidableEq", "",
@@ -809,9 +901,13 @@ def translate_all() -> tuple[dict[str, str], dict[str, str]]:
             if f is None:
                 raise Unsupported("function not found")
             spec = dict(spec)
+            spec["_locals"] = {a.arg for a in f.args.args + f.args.kwonlyargs} | {n.id for n in ast.walk(f) if isinstance(n, ast.Name) and isinstance(n.ctx, ast.Store)}
             spec["_scope"] = (module, next((n for n in ast.walk(module) if isinstance(n, ast.ClassDef) and n.name == spec["cls"]), None) if spec["cls"] else None)
             spec["_helpers"], spec["_helper_types"] = {}, {}
-            body = Tr(spec).block(list(f.body), "  ")
+            if spec.get("fuel"):
+                body = "  match fuel with\n  | 0 => " + spec["fuel"] + "\n  | fuel + 1 =>\n" + Tr(spec).block(list(f.body), "    ")
+            else:
+                body = Tr(spec).block(list(f.body), "  ")
             out += [h for h in spec["_helpers"].values() if h]
             out += [f"/-- `{(spec['cls'] + '.') if spec['cls'] else ''}{spec['func']}` ({spec['file']}), translated -/", spec["header"], body, ""]
             status[spec["name"]] = "ok"
